@@ -246,8 +246,8 @@ Qed.
 (* ------------------------------------------------------------------------------------------------ one wrapper *)
 Definition call_ev (vtbl : string) (f : func) : ev := EvCall vtbl (f_name f) (negb (f_moves f)) (map snd (f_args f)).
 
-Lemma trace_c : forall f container vtbl p cast this vtbls cty cpre cdrop xty xpre xdrop,
-  trace (mk_wrapper f container vtbl p false cast this vtbls cty cpre cdrop xty xpre xdrop) =
+Lemma trace_c : forall rel f container vtbl p cast this vtbls cty cpre cdrop xty xpre xdrop,
+  trace (mk_wrapper rel f container vtbl p false cast this vtbls cty cpre cdrop xty xpre xdrop) =
   if f_calls f then (if f_moves f && xdrop then [EvClone; call_ev vtbl f; EvDropClone] else [call_ev vtbl f])
   else if f_moves f then ((if cdrop then [EvDropInst] else []) ++ (if xdrop then [EvDropCtx] else []))%list
   else [].
@@ -256,31 +256,32 @@ Proof.
   destruct (f_calls f), (f_moves f), xdrop, cdrop, (String.eqb (trim_s (f_ret f)) "void"); reflexivity.
 Qed.
 
-Lemma trace_cpp : forall f container vtbl p cast this vtbls cty cpre cdrop xty xpre xdrop,
-  trace (mk_wrapper f container vtbl p true cast this vtbls cty cpre cdrop xty xpre xdrop) =
-  if f_calls f then (if f_moves f then [EvClone; call_ev vtbl f; EvForget] else [call_ev vtbl f])
-  else if f_moves f then [EvForget] else [].
+Lemma trace_cpp : forall rel f container vtbl p cast this vtbls cty cpre cdrop xty xpre xdrop,
+  trace (mk_wrapper rel f container vtbl p true cast this vtbls cty cpre cdrop xty xpre xdrop) =
+  let tail := if rel then [EvForget; EvDropClone] else [EvForget] in
+  if f_calls f then (if f_moves f then (EvClone :: call_ev vtbl f :: tail) else [call_ev vtbl f])
+  else if f_moves f then tail else [].
 Proof.
   intros. unfold mk_wrapper, trace, call_ev. cbn [w_body].
-  destruct (f_calls f), (f_moves f), (String.eqb (trim_s (f_ret f)) "void"); reflexivity.
+  destruct rel, (f_calls f), (f_moves f), (String.eqb (trim_s (f_ret f)) "void"); reflexivity.
 Qed.
 
-Lemma returns_wrapper : forall f container vtbl p cpp cast this vtbls cty cpre cdrop xty xpre xdrop,
+Lemma returns_wrapper : forall rel f container vtbl p cpp cast this vtbls cty cpre cdrop xty xpre xdrop,
   f_calls f = true ->
-  returns (mk_wrapper f container vtbl p cpp cast this vtbls cty cpre cdrop xty xpre xdrop) =
+  returns (mk_wrapper rel f container vtbl p cpp cast this vtbls cty cpre cdrop xty xpre xdrop) =
   if String.eqb (trim_s (f_ret f)) "void" then RetVoid
   else if String.eqb (trim_s (f_ret f)) cty then RetWrapped vtbls else RetCall.
 Proof.
   intros until xdrop. intros Hc. unfold mk_wrapper, returns, dest_of. cbn [w_body]. rewrite Hc.
-  destruct cpp, (f_moves f), xdrop, (String.eqb (trim_s (f_ret f)) "void"), (String.eqb (trim_s (f_ret f)) cty); reflexivity.
+  destruct rel, cpp, (f_moves f), xdrop, (String.eqb (trim_s (f_ret f)) "void"), (String.eqb (trim_s (f_ret f)) cty); reflexivity.
 Qed.
 
-Lemma params_wrapper : forall f container vtbl p cpp cast this vtbls cty cpre cdrop xty xpre xdrop,
-  w_params (mk_wrapper f container vtbl p cpp cast this vtbls cty cpre cdrop xty xpre xdrop) = f_args f.
+Lemma params_wrapper : forall rel f container vtbl p cpp cast this vtbls cty cpre cdrop xty xpre xdrop,
+  w_params (mk_wrapper rel f container vtbl p cpp cast this vtbls cty cpre cdrop xty xpre xdrop) = f_args f.
 Proof. reflexivity. Qed.
 
-Lemma ret_ty_wrapper : forall f container vtbl p cpp cast this vtbls cty cpre cdrop xty xpre xdrop,
-  w_ret (mk_wrapper f container vtbl p cpp cast this vtbls cty cpre cdrop xty xpre xdrop) =
+Lemma ret_ty_wrapper : forall rel f container vtbl p cpp cast this vtbls cty cpre cdrop xty xpre xdrop,
+  w_ret (mk_wrapper rel f container vtbl p cpp cast this vtbls cty cpre cdrop xty xpre xdrop) =
   if String.eqb (trim_s (f_ret f)) cty then this else trim_s (f_ret f).
 Proof. reflexivity. Qed.
 
@@ -558,28 +559,28 @@ Lemma variant_conflict_witness :
 Proof. cbv zeta. eexists. split; [vm_compute; reflexivity|]. split; vm_compute; reflexivity. Qed.
 
 (* ------------------------------------------------------------------------------------------------ C++ mode *)
-Definition expected_trace_cpp (vtbl : string) (f : func) : list ev :=
-  if f_moves f then [EvClone; call_ev vtbl f; EvForget] else [call_ev vtbl f].
+Definition expected_trace_cpp (rel : bool) (vtbl : string) (f : func) : list ev :=
+  if f_moves f then (EvClone :: call_ev vtbl f :: (if rel then [EvForget; EvDropClone] else [EvForget])) else [call_ev vtbl f].
 
-Lemma cpp_wrapper_trace : forall f vtbl prefix this vtbls,
-  f_calls f = true -> trace (cpp_wrapper f vtbl prefix this vtbls) = expected_trace_cpp vtbl f.
-Proof. intros f vtbl prefix this vtbls Hc. unfold cpp_wrapper. rewrite trace_cpp, Hc. reflexivity. Qed.
+Lemma cpp_wrapper_trace : forall rel f vtbl prefix this vtbls,
+  f_calls f = true -> trace (cpp_wrapper rel f vtbl prefix this vtbls) = expected_trace_cpp rel vtbl f.
+Proof. intros rel f vtbl prefix this vtbls Hc. unfold cpp_wrapper. rewrite trace_cpp, Hc. reflexivity. Qed.
 
-Lemma cpp_wrapper_returns : forall f vtbl prefix this vtbls,
+Lemma cpp_wrapper_returns : forall rel f vtbl prefix this vtbls,
   f_calls f = true ->
-  returns (cpp_wrapper f vtbl prefix this vtbls) =
+  returns (cpp_wrapper rel f vtbl prefix this vtbls) =
   if String.eqb (trim_s (f_ret f)) "void" then RetVoid else if String.eqb (trim_s (f_ret f)) "CGlueC" then RetWrapped vtbls else RetCall.
 Proof. intros. unfold cpp_wrapper. apply returns_wrapper. assumption. Qed.
 
 (* every function of every vtable of a group gets a member function that forwards to that vtable's slot *)
-Theorem cpp_group_serves : forall vs g t v fi f,
+Theorem cpp_group_serves : forall rel vs g t v fi f,
   In t (g_traits g) -> find_vtbl vs t = Some v -> nth_error (v_funcs v) fi = Some f -> f_calls f = true ->
-  exists w, In (t, fi, w) (gen_cpp_group vs g) /\
-            trace w = expected_trace_cpp ("vtbl_" ++ lower t) f /\ w_params w = f_args f /\
+  exists w, In (t, fi, w) (gen_cpp_group rel vs g) /\
+            trace w = expected_trace_cpp rel ("vtbl_" ++ lower t) f /\ w_params w = f_args f /\
             returns w = (if String.eqb (trim_s (f_ret f)) "void" then RetVoid
                          else if String.eqb (trim_s (f_ret f)) "CGlueC" then RetWrapped (map (fun t => "vtbl_" ++ lower t) (g_traits g)) else RetCall).
 Proof.
-  intros vs g t v fi f Ht Hv Hf Hc. eexists. split; [|split; [|split]].
+  intros rel vs g t v fi f Ht Hv Hf Hc. eexists. split; [|split; [|split]].
   - unfold gen_cpp_group. apply in_flat_map. exists t. split; [exact Ht|]. rewrite Hv.
     apply in_map_iff. exists (fi, f). split; [reflexivity|].
     apply (combine_seq_nth (v_funcs v) 0 fi f Hf).
@@ -589,24 +590,23 @@ Proof.
 Qed.
 
 (* ... and so does every function of a single-trait object's vtable *)
-Theorem cpp_obj_serves : forall v fi f,
+Theorem cpp_obj_serves : forall rel v fi f,
   nth_error (v_funcs v) fi = Some f -> f_calls f = true ->
-  exists w, In (v_name v, fi, w) (gen_cpp_obj v) /\
-            trace w = expected_trace_cpp "vtbl" f /\ w_params w = f_args f /\
+  exists w, In (v_name v, fi, w) (gen_cpp_obj rel v) /\
+            trace w = expected_trace_cpp rel "vtbl" f /\ w_params w = f_args f /\
             returns w = (if String.eqb (trim_s (f_ret f)) "void" then RetVoid
                          else if String.eqb (trim_s (f_ret f)) "CGlueC" then RetWrapped ["vtbl"] else RetCall).
 Proof.
-  intros v fi f Hf Hc. eexists. split; [|split; [|split]].
+  intros rel v fi f Hf Hc. eexists. split; [|split; [|split]].
   - unfold gen_cpp_obj. apply in_map_iff. exists (fi, f). split; [reflexivity|]. apply (combine_seq_nth (v_funcs v) 0 fi f Hf).
   - cbn [snd]. apply cpp_wrapper_trace. exact Hc.
   - reflexivity.
   - cbn [snd]. apply cpp_wrapper_returns. exact Hc.
 Qed.
 
-(* member function names inside one group class are distinct as soon as the lower-cased trait names are and no function is called `<trait>_<x>` *)
-(* what the C++ generator does NOT do (finding F-C17-cpp-leak): the context clone taken before a consuming call is never released *)
-Lemma cpp_clone_never_released : forall f vtbl prefix this vtbls,
-  ~ In EvDropClone (trace (cpp_wrapper f vtbl prefix this vtbls)).
+(* the C++ generator as found (release mode false) never released the context clone of a consuming call (F-C17-cpp-leak, repaired) *)
+Lemma cpp_clone_never_released_before_fix : forall f vtbl prefix this vtbls,
+  ~ In EvDropClone (trace (cpp_wrapper false f vtbl prefix this vtbls)).
 Proof.
   intros f vtbl prefix this vtbls. unfold cpp_wrapper. rewrite trace_cpp.
   destruct (f_calls f), (f_moves f); cbn [In]; intros H; repeat (destruct H as [H|H]; [discriminate|]); exact H.
